@@ -142,9 +142,19 @@ def part_a_cells(rng, tier):
 
 def run_part_a(run, e1, cell, rng, tier):
     cfgset, el, d, L, n, F = cell
+    PROXY_LINES = {"short": b"PROXY TCP4 1.2.3.4 5.6.7.8 11 22\r\n",
+                   "long": b"PROXY TCP6 ffff:ffff:ffff:ffff:ffff:ffff:ffff:ffff ffff:ffff:ffff:ffff:ffff:ffff:ffff:fff0 65535 65534\r\n"}
     for body in (None, b"hello-body"):
-        for hm, under in (("drop", 0), ("drop", 1), ("refuse", 0), ("drop", "long")):
+        for hm, under in (("drop", 0), ("drop", 1), ("refuse", 0), ("drop", "long"), ("proxy-short", 0), ("proxy-long", 0)):
             cs = dict(cfgset)
+            proxy_line = b""
+            if hm.startswith("proxy"):
+                # PROXY protocol switched on, the peer is an allowed proxy: the line it puts in front changes nothing about the limits
+                if el != "line":
+                    continue
+                cs["proxy_protocol"] = True
+                proxy_line = PROXY_LINES[hm.split("-")[1]]
+                hm = "drop"
             if hm != "drop":
                 cs["header_map"] = hm
             if under == 1 and n < 2:
@@ -154,10 +164,16 @@ def run_part_a(run, e1, cell, rng, tier):
             s = build(L, n, F, body, underscore=1 if under == 1 else 0, long_underscore=(under == "long"))
             if s is None:
                 continue
-            stream = s + gen.marker(1, b"end")
             head_len = s.index(b"\r\n\r\n") + 4 - (L + 2)
             flens = [len(x) for x in s[:s.index(b"\r\n\r\n")].split(b"\r\n")[1:]]
-            want = expect(cs, L, n, flens, head_len)
+            want = expect({k: v for k, v in cs.items() if k != "proxy_protocol"}, L, n, flens, head_len)
+            s = proxy_line + s
+            stream = s + gen.marker(1, b"end")
+            if proxy_line:
+                run.count("A_proxy_line_cases")
+                eff_ll = effective(cs)[0]
+                if want == "accept" and eff_ll is not None and len(proxy_line) - 2 > eff_ll:
+                    want = "either"         # gunicorn applies limit_request_line to the PROXY line as well: not judged
             cfg = e1.make_cfg(**cs)
             nn = len(stream)
             segs = [[], sorted(rng.sample(range(1, nn), min(nn - 1, 3)))]
@@ -167,7 +183,7 @@ def run_part_a(run, e1, cell, rng, tier):
             segs.append([p + 4])                    # head alone, then body
             segs.append([max(1, p - 1), min(nn - 1, p + 5)])
             for cuts in segs:
-                obs = e1.observe(cfg, gen.cut(stream, cuts))
+                obs = e1.observe(cfg, gen.cut(stream, cuts), **({"peer": ("127.0.0.1", 5000)} if proxy_line else {}))
                 run.case(("A", json.dumps(cs, sort_keys=True), el, d, body is not None, str(under), len(cuts)))
                 accepted = bool(obs["reqs"]) and obs["reqs"][0]["uri"].startswith("/p") or \
                     (bool(obs["reqs"]) and obs["reqs"][0]["uri"] == "/")
@@ -292,7 +308,7 @@ def shard(sh):
 
 def main(tier, seed):
     run = Run(PROP, tier, seed, "exploration", RULE)
-    run.require("A_accept_ok", "A_reject_ok", "A_either", "B_floods", "B_rejected_within_bound")
+    run.require("A_accept_ok", "A_reject_ok", "A_either", "B_floods", "B_rejected_within_bound", "A_proxy_line_cases")
     q = tier == "quick"
     shards = [{"kind": "A", "sub": i, "of": 16, "seed": seed, "tier": tier} for i in range(16)]
     rng = rng_for(seed, "c12-main")
